@@ -14,7 +14,7 @@ product of the dimensions it names, all other dimensions at a base value (family
                items / reference, typed values) x chunk encoding x configuration set x entry flags {0, PUBLIC, WEAK, both}
   C refs       acyclic reference chains of length 1-2: source kind {plain, compact, complex item, two complex items} x
                target kind {plain, compact, complex, chain on} x target location {same type, other type, other package}
-               x configuration sets of source and target x chunk encoding
+               x configuration sets of source and target (quick 5 x 5, thorough 15 x 15) x chunk encoding
   D types      every non-empty subset of the 7 types x {1, 2} packages x chunk encoding x string pool encodings
                {utf8, utf16, mixed} x type-id gap
   E pairs      13 global dimensions (packages, type set, entry presence, configuration set, staggered configurations, entry
@@ -213,7 +213,7 @@ def build_a(p):
 
 
 def fam_b(ctx):
-    for cfgs in (0, 1, 3):
+    for cfgs in (range(len(CFGSETS)) if ctx.thorough else (0, 1, 3)):
         for flags in (0, 2, 4, 6):
             for enc in ENCS:
                 for t in TYPES:
@@ -241,7 +241,7 @@ def build_b(p):
 C_SRC = ["p-ref", "c-ref", "xr", "xrr"]
 C_T1 = ["p-str", "c-str", "x1", "p-ref", "xr"]
 C_T2 = ["p-str", "c-str", "x1"]
-C_CS = [[""], ["", "en"], ["en"], ["", "en", "de-rDE", "fr-hdpi"], ["de-rDE", "fr-hdpi"]]
+C_NCS = 5            # quick: the first five of CFGSETS: [""], ["", en], [en], all four, [de-rDE, fr-hdpi]; thorough: all 15
 C_LOC = ["same", "type", "pkg"]
 
 
@@ -268,15 +268,15 @@ def fam_c(ctx):
                     if _c_names(s, t1, loc) is None:
                         continue
                     for t2 in (C_T2 if t1 in ("p-ref", "xr") else [None]):
-                        for cs in range(len(C_CS)):
-                            for ct in range(len(C_CS)):
+                        for cs in range(len(CFGSETS) if ctx.thorough else C_NCS):
+                            for ct in range(len(CFGSETS) if ctx.thorough else C_NCS):
                                 yield ("C", s, t1, t2, loc, cs, ct, enc)
 
 
 def build_c(p):
     _f, s, t1, t2, loc, cs, ct, enc = p
     cells = _Cells()
-    cs, ct = C_CS[cs], C_CS[ct]
+    cs, ct = CFGSETS[cs], CFGSETS[ct]
     pkgs = [{"id": 0x7F, "name": "com.a", "types": []}]
     if loc == "pkg":
         pkgs.append({"id": 0x02, "name": "com.lib", "types": []})
@@ -699,8 +699,9 @@ def space(ctx):
         "families": {
             "A": "1 type, n=1..3 entries, all 2^(4n)-1 presence matrices over configs %r x %r%s" % (
                 CFGS, ENCS, " x {plain, compact, mixed} x trim" if ctx.thorough else " (+compact for n<=2)"),
-            "B": {"kinds_per_type": KINDS, "x": "ordered pairs x encodings x config sets {1,2,4} x flags {0,2,4,6}"},
-            "C": {"source": C_SRC, "target1": C_T1, "target2": C_T2, "location": C_LOC, "config_sets": C_CS, "enc": ENCS},
+            "B": {"kinds_per_type": KINDS, "x": "ordered pairs x encodings x config sets %s x flags {0,2,4,6}" % ("(all 15)" if ctx.thorough else "{default; default+en; all 4}")},
+            "C": {"source": C_SRC, "target1": C_T1, "target2": C_T2, "location": C_LOC,
+                  "config_sets": CFGSETS if ctx.thorough else CFGSETS[:C_NCS], "enc": ENCS},
             "D": "127 type subsets x {1,2} packages x 3 encodings x 3 pool encodings x type-id gap",
             "E": {"dimensions": {n: len(a) for n, a in E_DIMS}, "bases": E_BASES,
                   "order": "all pairs around both bases" + ("; all triples around base 0" if ctx.thorough else "")},
